@@ -160,6 +160,76 @@ func hostileSpace(thorough bool, fn func(idx int64, t *rm.Type, p *prim, le bool
 			}
 		}
 	}
+	// (e) a lying count AFTER a long run of real elements (a reservation that is bounded at first and widened once the
+	//     decoder has seen enough genuine data): k real elements, claimed count k+1 .. 2^32-1, for 32/64-bit counts
+	for i := range prims {
+		p := &prims[i]
+		if p.field.Kind != "list" || rm.ScalarWidth(p.field.Count) < 4 {
+			continue
+		}
+		for _, k := range []int{1000, 65536, 65537} {
+			l := &rm.Value{K: rm.VList, Elems: make([]*rm.Value, k)}
+			for j := range l.Elems {
+				switch p.field.Elem.Kind {
+				case "fixtext":
+					l.Elems[j] = rm.TextS("ab")
+				case "lentext":
+					l.Elems[j] = rm.TextS("x")
+				default:
+					l.Elems[j] = rm.Scalar(uint64(j) & rm.MaxOf("u"+p.field.Elem.Kind[1:]))
+				}
+			}
+			for _, le := range []bool{false, true} {
+				ref, segs, err := rm.EncodeField(&p.field, l, le)
+				if err != nil || len(segs) == 0 {
+					continue
+				}
+				for _, claimed := range []uint64{uint64(k) + 1, 1 << 24, 1 << 31, 1<<32 - 1} {
+					w := append([]byte{}, ref...)
+					copy(w[segs[0].Off:], putPrefix(claimed, segs[0].Len, le))
+					fn(idx, nil, p, le, w, fmt.Sprintf("%d real elements, count claims %d", k, claimed))
+					idx++
+				}
+			}
+		}
+	}
+	for _, t := range bind.Types {
+		for fi := range t.Fields {
+			f := &t.Fields[fi]
+			if f.Kind != "list" || rm.ScalarWidth(f.Count) < 4 {
+				continue
+			}
+			for _, k := range []int{1000, 65536, 65537} {
+				v := valenum.Distinct(t)
+				l := &rm.Value{K: rm.VList, Elems: make([]*rm.Value, k)}
+				for j := range l.Elems {
+					if f.Elem.Kind == "struct" {
+						l.Elems[j] = rm.Zero(t.Proto.Type(f.Elem.Type))
+					} else if f.Elem.Kind == "fixtext" || f.Elem.Kind == "lentext" {
+						l.Elems[j] = rm.TextS("x")
+					} else {
+						l.Elems[j] = rm.Scalar(uint64(j) & rm.MaxOf("u"+f.Elem.Kind[1:]))
+					}
+				}
+				v.Fields[fi] = l
+				ref, segs, _, err := rm.EncodeRef(v)
+				if err != nil {
+					continue
+				}
+				for _, sg := range segs {
+					if sg.Role != "count" || sg.Path != "."+f.Name {
+						continue
+					}
+					for _, claimed := range []uint64{uint64(k) + 1, 1 << 24, 1 << 31, 1<<32 - 1} {
+						w := append([]byte{}, ref...)
+						copy(w[sg.Off:], putPrefix(claimed, sg.Len, sg.Little))
+						fn(idx, t, nil, false, w, fmt.Sprintf("%s: %d real elements, count claims %d", f.Name, k, claimed))
+						idx++
+					}
+				}
+			}
+		}
+	}
 	// (d) per message type: seeds, truncations, substitutions, prefix extremes, unknown keys
 	for _, t := range bind.Types {
 		wireSpace(t, wireOpts{Dev: 1, DevBaseOnly: !thorough, Dev2Base: thorough && encLen(valenum.Distinct(t)) <= 120}, func(w []byte, desc string) bool {
@@ -556,7 +626,7 @@ func superviseDecode(r *ev.Run, prop string, thorough bool) {
 	r.Transition(r.Evaluations)
 	r.Trace(r.Evaluations)
 	if prop == "C09" {
-		r.Rule = "every decoder (170 message types + 74 primitive instantiations x BE/LE) x {all byte strings of length <=2; every strict prefix of every V1 reference wire; seeds and their 1-byte substitutions; every count/length prefix set to each extreme value followed by 0..8 original bytes and by the full tail; unregistered discriminators spliced in}; executed in 16 worker processes under RLIMIT_AS=8GiB with the case journalled before execution; oracle: the call returns (no panic, no process death), loop iterations <= 256+64*len(input) when the tick instrumentation is active"
+		r.Rule = "every decoder (170 message types + 74 primitive instantiations x BE/LE) x {all byte strings of length <=2; every strict prefix of every V1 reference wire; seeds and their 1-byte substitutions; every count/length prefix set to each extreme value followed by 0..8 original bytes and by the full tail; unregistered discriminators spliced in; for 32/64-bit counts 1000/65536/65537 real elements followed by a count that claims more}; executed in 16 worker processes under RLIMIT_AS=8GiB with the case journalled before execution; oracle: the call returns (no panic, no process death), loop iterations <= 256+64*len(input) when the tick instrumentation is active"
 	} else {
 		r.Rule = "same space as C09; oracle: runtime.MemStats.TotalAlloc delta around the single decode call <= 16384+64*len(input) bytes, worker survives RLIMIT_AS=8GiB; the budget is validated in the same run on every valid encoding of V1"
 	}
